@@ -261,6 +261,7 @@ func cmdVerify(mode string, args []string) {
 	timeout := fs.Int("timeout", 10, "solver timeout (s)")
 	verbose := fs.Bool("v", false, "verbose")
 	showFail := fs.Bool("fail", true, "print failing obligations")
+	sweep := fs.String("sweep", "", "exploration only: give every function of the packages matching this regexp that has no contract an empty one (safety obligations only)")
 	vacAudit := fs.Bool("vacuity", false, "also try to refute the path condition of every discharged postcondition (vacuous proofs)")
 	fs.Parse(args)
 	t0 := time.Now()
@@ -276,6 +277,26 @@ func cmdVerify(mode string, args []string) {
 	}
 	if *oblRe != "" {
 		ore = regexp.MustCompile(*oblRe)
+	}
+	if *sweep != "" {
+		sre := regexp.MustCompile(*sweep)
+		var names []string
+		for n, fn := range eng.fnByName {
+			if fn.Pkg == nil || !sre.MatchString(fn.Pkg.Pkg.Path()) || len(fn.Blocks) == 0 || fn.Synthetic != "" {
+				continue
+			}
+			if _, has := eng.cs.Funcs[n]; has {
+				continue
+			}
+			names = append(names, n)
+		}
+		sort.Strings(names)
+		for _, n := range names {
+			fn := eng.fnByName[n]
+			key := strings.TrimPrefix(n, fn.Pkg.Pkg.Path()+".")
+			eng.cs.Funcs[n] = &FuncContract{Key: key, PkgPath: fn.Pkg.Pkg.Path(), Loops: map[int]*LoopSpec{}, Unit: "sweep", Where: "sweep"}
+			eng.cs.FuncOrder = append(eng.cs.FuncOrder, n)
+		}
 	}
 	var all []*Obligation
 	for _, c := range eng.functionsUnderContract() {
